@@ -25,16 +25,22 @@ theorem gen_uFindStats_eq (E : GazeOps T G R Shape Sub) (S : StatsOps T R Shape)
   · simp [metamericLossUniformCalcStatsmapsFindStatsG, uFindStatsRef, h1, h2]
   · simp [metamericLossUniformCalcStatsmapsFindStatsG, uFindStatsRef, h1, h2]
 
+/-- loop-carried variables of the generated text (object, log, means, deviations, statistics so far, pooling size) against those of the
+    reference (statistics so far, pooling size): the loops touch neither the object nor the log -/
+def ULoopRel (self0 : MetamericLossUniformStatsSelf T G R Shape Sub) (log0 : List String)
+    (st : MetamericLossUniformStatsSelf T G R Shape Sub × List String × T × T × List T × R) (rst : List T × R) : Prop :=
+  st.1 = self0 ∧ st.2.1 = log0 ∧ st.2.2.2.2.1 = rst.1 ∧ st.2.2.2.2.2 = rst.2
+
 theorem gen_uInner_rel (E : GazeOps T G R Shape Sub) (S : StatsOps T R Shape) (cfg : MetamericLossUniformCfg R) (pyr : List (PyrLevel T))
-    (ps : R) (l : Nat) (self0 : MetamericLossUniformStatsSelf T G R Shape Sub) (log0 : List String)
-    (st : MetamericLossUniformStatsSelf T G R Shape Sub × List String × T × T × List T) (os : List T) (o : Nat)
-    (h : st.1 = self0 ∧ st.2.1 = log0 ∧ st.2.2.2.2 = os) :
-    OptRel (fun r v => r.1 = self0 ∧ r.2.1 = log0 ∧ r.2.2.2.2 = v) (metamericLossUniformCalcStatsmapsFor1For1G E S cfg pyr ps l st o)
-      (uInnerRef E S pyr ps l os o) := by
-  obtain ⟨self_, log_, mn, vr, os'⟩ := st
-  obtain ⟨h1, h2, h3⟩ := h
-  simp only at h1 h2 h3
-  subst h1 h2 h3
+    (l : Nat) (self0 : MetamericLossUniformStatsSelf T G R Shape Sub) (log0 : List String)
+    (st : MetamericLossUniformStatsSelf T G R Shape Sub × List String × T × T × List T × R) (rst : List T × R) (o : Nat)
+    (h : ULoopRel self0 log0 st rst) :
+    OptRel (ULoopRel self0 log0) (metamericLossUniformCalcStatsmapsFor1For1G E S cfg pyr l st o) (uInnerRef E S pyr l rst o) := by
+  obtain ⟨self_, log_, mn, vr, os', ps⟩ := st
+  obtain ⟨ros, rps⟩ := rst
+  obtain ⟨h1, h2, h3, h4⟩ := h
+  simp only at h1 h2 h3 h4
+  subst h1 h2 h3 h4
   cases e1 : pyr[l]? with
   | none => simp [metamericLossUniformCalcStatsmapsFor1For1G, uInnerRef, e1, OptRel]
   | some lv =>
@@ -46,38 +52,32 @@ theorem gen_uInner_rel (E : GazeOps T G R Shape Sub) (S : StatsOps T R Shape) (c
   | some x =>
   cases e4 : uFindStatsRef E S x ps with
   | none => simp [metamericLossUniformCalcStatsmapsFor1For1G, uInnerRef, e1, e2, e3, gen_uFindStats_eq, e4, OptRel]
-  | some v => simp [metamericLossUniformCalcStatsmapsFor1For1G, uInnerRef, e1, e2, e3, gen_uFindStats_eq, e4, OptRel]
+  | some v => simp [metamericLossUniformCalcStatsmapsFor1For1G, uInnerRef, e1, e2, e3, gen_uFindStats_eq, e4, OptRel, ULoopRel]
 
 theorem gen_uOuter_rel (E : GazeOps T G R Shape Sub) (S : StatsOps T R Shape) (cfg : MetamericLossUniformCfg R) (pyr : List (PyrLevel T))
     (self0 : MetamericLossUniformStatsSelf T G R Shape Sub) (log0 : List String)
-    (st : MetamericLossUniformStatsSelf T G R Shape Sub × List String × R × T × T × List T) (rst : R × List T) (l : Nat)
-    (h : st.1 = self0 ∧ st.2.1 = log0 ∧ st.2.2.1 = rst.1 ∧ st.2.2.2.2.2 = rst.2) :
-    OptRel (fun r v => r.1 = self0 ∧ r.2.1 = log0 ∧ r.2.2.1 = v.1 ∧ r.2.2.2.2.2 = v.2) (metamericLossUniformCalcStatsmapsFor1G E S cfg pyr st l)
-      (uOuterRef E S pyr rst l) := by
-  obtain ⟨self_, log_, ps, mn, vr, os'⟩ := st
-  obtain ⟨rps, ros⟩ := rst
-  obtain ⟨h1, h2, h3, h4⟩ := h
-  simp only at h1 h2 h3 h4
-  subst h1 h2 h3 h4
+    (st : MetamericLossUniformStatsSelf T G R Shape Sub × List String × T × T × List T × R) (rst : List T × R) (l : Nat)
+    (h : ULoopRel self0 log0 st rst) :
+    OptRel (ULoopRel self0 log0) (metamericLossUniformCalcStatsmapsFor1G E S cfg pyr st l) (uOuterRef E S pyr rst l) := by
   cases e1 : pyr[l]? with
   | none => simp [metamericLossUniformCalcStatsmapsFor1G, uOuterRef, e1, OptRel]
   | some lv =>
   cases e2 : lv.b with
   | none => simp [metamericLossUniformCalcStatsmapsFor1G, uOuterRef, e1, e2, OptRel]
   | some bands =>
-  have hfold := foldlM_optRel _ _ (fun (r : MetamericLossUniformStatsSelf T G R Shape Sub × List String × T × T × List T) (v : List T) =>
-      r.1 = self_ ∧ r.2.1 = log_ ∧ r.2.2.2.2 = v)
-    (fun s r i hr => gen_uInner_rel E S cfg pyr ps l self_ log_ s r i hr) (List.range bands.length) (self_, log_, mn, vr, os') os' ⟨rfl, rfl, rfl⟩
-  cases e3 : (List.range bands.length).foldlM (uInnerRef E S pyr ps l) os' with
+  have hfold := foldlM_optRel _ _ _ (fun s r i hr => gen_uInner_rel E S cfg pyr l self0 log0 s r i hr) (List.range bands.length) st rst h
+  obtain ⟨self_, log_, mn, vr, os', ps⟩ := st
+  cases e3 : (List.range bands.length).foldlM (uInnerRef E S pyr l) rst with
   | none =>
     have e4 := (OptRel.none_iff hfold).2 e3
     simp [metamericLossUniformCalcStatsmapsFor1G, uOuterRef, e1, e2, e3, e4, OptRel]
-  | some os2 =>
-    obtain ⟨st', e4, hr1, hr2, hr3⟩ := OptRel.of_some hfold e3
-    obtain ⟨self', log', mn', vr', os3⟩ := st'
-    simp only at hr1 hr2 hr3
-    subst hr1 hr2 hr3
-    simp [metamericLossUniformCalcStatsmapsFor1G, uOuterRef, e1, e2, e3, e4, OptRel]
+  | some rst' =>
+    obtain ⟨st', e4, hr1, hr2, hr3, hr4⟩ := OptRel.of_some hfold e3
+    obtain ⟨self', log', mn', vr', os3, ps3⟩ := st'
+    obtain ⟨ros', rps'⟩ := rst'
+    simp only at hr1 hr2 hr3 hr4
+    subst hr1 hr2 hr3 hr4
+    simp [metamericLossUniformCalcStatsmapsFor1G, uOuterRef, e1, e2, e3, e4, OptRel, ULoopRel]
 
 theorem gen_uCalcStatsmapsK1_rel (E : GazeOps T G R Shape Sub) (S : StatsOps T R Shape) (cfg : MetamericLossUniformCfg R) (device : Nat)
     (self_ : MetamericLossUniformStatsSelf T G R Shape Sub) (log_ : List String) (image : T) (ps : Nat) (pm : SpatialSteerablePyramidSelf)
@@ -97,18 +97,16 @@ theorem gen_uCalcStatsmapsK1_rel (E : GazeOps T G R Shape Sub) (S : StatsOps T R
     cases e3 : uFindStatsRef E S h (S.ofNat ps) with
     | none => (step_simp [metamericLossUniformCalcStatsmapsFullK1G, uStatsRefTail, hpm, hp, e1, e2, gen_uFindStats_eq, e3]) <;> simp [OptRel]
     | some rv =>
-    have hfold := foldlM_optRel _ _ (fun (r : MetamericLossUniformStatsSelf T G R Shape Sub × List String × R × T × T × List T) (v : R × List T) =>
-        r.1 = self_ ∧ r.2.1 = log_ ∧ r.2.2.1 = v.1 ∧ r.2.2.2.2.2 = v.2)
-      (fun s r i hr => gen_uOuter_rel E S cfg pyr self_ log_ s r i hr) (List.range (pyr.length - 1))
-      (self_, log_, S.ofNat ps, rv.1, rv.2, [rv.1, rv.2]) (S.ofNat ps, [rv.1, rv.2]) ⟨rfl, rfl, rfl, rfl⟩
-    cases e4 : (List.range (pyr.length - 1)).foldlM (uOuterRef E S pyr) (S.ofNat ps, [rv.1, rv.2]) with
+    have hfold := foldlM_optRel _ _ _ (fun s r i hr => gen_uOuter_rel E S cfg pyr self_ log_ s r i hr) (List.range (pyr.length - 1))
+      (self_, log_, rv.1, rv.2, [rv.1, rv.2], S.ofNat ps) ([rv.1, rv.2], S.ofNat ps) ⟨rfl, rfl, rfl, rfl⟩
+    cases e4 : (List.range (pyr.length - 1)).foldlM (uOuterRef E S pyr) ([rv.1, rv.2], S.ofNat ps) with
     | none =>
       have e5 := (OptRel.none_iff hfold).2 e4
       (step_simp [metamericLossUniformCalcStatsmapsFullK1G, uStatsRefTail, hpm, hp, e1, e2, gen_uFindStats_eq, e3, e4, e5]) <;> simp [OptRel]
     | some rst =>
       obtain ⟨st', e5, hr1, hr2, hr3, hr4⟩ := OptRel.of_some hfold e4
-      obtain ⟨self', log', ps', mn', vr', os3⟩ := st'
-      obtain ⟨rps, ros⟩ := rst
+      obtain ⟨self', log', mn', vr', os3, ps'⟩ := st'
+      obtain ⟨ros, rps⟩ := rst
       simp only at hr1 hr2 hr3 hr4
       subst hr1 hr2 hr3 hr4
       cases e6 : pyLast pyr with
